@@ -1,5 +1,5 @@
 """C04 -- factorization terminates, does each panel exactly once, leaves no threads."""
-import os, json, time
+import os, json, time, re
 import vf, schedlock, drv, gen
 
 MANIFEST = {
@@ -209,6 +209,38 @@ def run(ctx):
                           {"case": sc, "generator": "arrowcol n=6000: diagonal 4, last column 1"}, key={"kind": "tasks_counter"})
         else:
             ctx.violation("C04: " + msg, {"case": c0}, key={"kind": "tasks_counter"}, found_input=False)
+    # ---- error returns: a thread creation that fails part-way (resource exhaustion, injected through ld --wrap=pthread_create)
+    # Either the library ends the process through its fatal-error path with a diagnostic, or the routine returns; if it returns,
+    # every worker it started must have terminated (exact count kept by the trampoline, no polling).
+    ncf = 0
+    fcases = []
+    for rep in range(10 if ctx.quick() else 60):
+        A = gen.matrix(ctx.rng, ctx.rng.choice(["grid", "banded", "blockdiag", "random"]), ctx.rng.randint(30, 120))
+        P = ctx.rng.choice([2, 3, 4, 8])
+        fcases.append(dict(id=70000 + rep, driver=ctx.rng.choice(["gssv", "gssvx"]), m=A["n"], n=A["n"], colptr=A["colptr"], rowind=A["rowind"],
+                           vals=A["vals"], nrhs=1, rhs=[1.0] * A["n"], nprocs=P, colperm=ctx.rng.choice([0, 1, 2, 3]), ienv=ienv_ok(ctx.rng),
+                           perturb=[ctx.rng.randint(1, 10 ** 6), 0.6, 300], dumplu=0, timeout=60, kind="createfail", trace=0,
+                           createfail=ctx.rng.randint(1, P), stype="NC", thresh=1.0))
+    fres = drv.run_grouped(exe_d, fcases, par=max(1, vf.NCPU // 4), chunk=1)
+    for c, r in zip(fcases, fres):
+        ctx.count(("createfail", c["n"], tuple(c["rowind"][:30]), c["nprocs"], c["createfail"]), nontrivial=True, kind="createfail")
+        bad = None
+        if r.get("timeout"):
+            bad = "did not return within %d s" % c["timeout"]
+        elif r.get("crash") is not None:
+            # the library's fatal-error path prints "<what> at line <n> in file <f>" and exits: anything else is a crash
+            if not re.search(r"pthread_create\(\) at line \d+ in file", r.get("stderr") or "") or (isinstance(r.get("crash"), int) and r["crash"] < 0):
+                bad = "process died without the library's diagnostic: %s" % (r.get("stderr") or "")[-200:]
+        elif r.get("live_at_return", 0) != 0:
+            bad = "returned (info = %s) while %d of the worker threads it had started were still running" % (r.get("info"), r["live_at_return"])
+        elif r.get("create_failed") and r.get("info") == 0:
+            bad = "creation of worker %d failed and the routine reports success (info = 0)" % c["createfail"]
+        if bad:
+            ctx.violation("C04: p?%s with %d workers, creation of worker %d fails (EAGAIN): %s" % (c["driver"], c["nprocs"], c["createfail"], bad),
+                          {"case": c, "result": {k: v for k, v in r.items() if k not in ("L", "U", "events")}}, key={"kind": "thread_creation_fault", "what": bad[:40]})
+        else:
+            ncf += 1
+    ctx.cov["correspondence"]["thread_creation_faults_handled"] = ncf
     ctx.cov["correspondence"]["threaded_runs"] = nthr
     ctx.cov["correspondence"]["runs_with_tasks_remain_equal_to_model_at_every_handout"] = ntask
     ctx.sample({"threaded_case": {k: cases[0][k] for k in ("kind", "n", "nprocs", "colperm", "ienv", "perturb")}})
